@@ -221,20 +221,17 @@ func ruleBitOps(c *Ctx) {
 		for _, ret := range returnsOf(fn) {
 			truth = cOr(truth, cAnd(n.ReachCond(fn, nil, ret.Block()), n.CondOf(ret.Results[0])))
 		}
-		got := truth.String()
-		forms := []string{
-			MustRefCond("x == 1").String(),
-			MustRefCond("y != 0").String(),
-		}
-		got = strings.ReplaceAll(got, "And(1,Shr(word,"+s+"))", "x")
-		got = strings.ReplaceAll(got, "And(Shl(1,"+s+"),word)", "y")
-		got = strings.ReplaceAll(got, "And(word,Shl(1,"+s+"))", "y")
+		// the tested quantity: bit s of the word, as (word>>s)&1 or as word&(1<<s); the result is true
+		// exactly when it is set (== 1 / != 0 / > 0 of a value that is 0 or 1, != 0 of the masked word)
 		okG := false
-		if cg, err := ParseRefCond(strings.NewReplacer("[", "", "]", "").Replace(got)); err == nil {
-			for _, f := range forms {
-				if eq, _ := CondEquivalent(cg, MustRefCond(map[string]string{forms[0]: "x == 1", forms[1]: "y != 0"}[f])); eq {
-					okG = true
-				}
+		x := pAtom("And(1,Shr(word," + s + "))")
+		dom := cAnd(cmpCond(token.GEQ, x, pConst(0)), cmpCond(token.LEQ, x, pConst(1)))
+		if eq, _ := CondEquivalent(cAnd(dom, truth), cAnd(dom, cmpCond(token.EQL, x, pConst(1)))); eq {
+			okG = true
+		}
+		for _, y := range []string{"And(Shl(1," + s + "),word)", "And(word,Shl(1," + s + "))"} {
+			if eq, _ := CondEquivalent(truth, cmpCond(token.NEQ, pAtom(y), pConst(0))); eq {
+				okG = true
 			}
 		}
 		c.Check(R, "utils.(*BitList).GetBit/bit", fn.Pos(), okG, "bit 31-index%32 of data[index/32]", truth.String())
